@@ -180,6 +180,10 @@ type Gate struct {
 	once     sync.Once
 	hit      bool
 	Disabled bool
+	// SucceedOnClose makes a write parked After its delivery return success when the endpoint is
+	// closed meanwhile (its bytes are out: a real transport's Write that has handed everything to the
+	// kernel returns nil whatever Close does concurrently). Default: it reports the close.
+	SucceedOnClose bool
 }
 
 // Reached is closed when a write parked at the gate.
@@ -475,6 +479,9 @@ func (e *End) park(g *Gate) error {
 	}
 	census.Bump()
 	if c, cerr := e.isClosed(); c {
+		if g.when == After && g.SucceedOnClose {
+			return nil
+		}
 		return cerr
 	}
 	return nil
